@@ -366,4 +366,44 @@ def selftest():
     acc2, rules = mutated(drop_sig)
     print("selftest: dropping the set_remote_description(offer) commit event is rejected:", not acc2)
     ok &= not acc2
+    # composed Stack model: every ordering deviation violates its property; a recorded run with the SCTP activity
+    # moved in front of the DTLS key derivation is flagged by Trace_Stack
+    for dev, prop in {"KeysBeforeDtls": "KeysAfterDtls", "SctpBeforeDtls": "SctpAfterDtls",
+                      "OpenBeforeSctp": "OpenAfterSctp", "ConnectedEarly": "ConnectedAfterAll"}.items():
+        cfg = os.path.join(vlib.SPEC, f"MC_Stack_self_{dev}.gen.cfg")
+        with open(cfg, "w") as f:
+            f.write(f'SPECIFICATION Spec\nCONSTANTS\n  Mode = "WebRtc"\n  Deviations = {{"{dev}"}}\n'
+                    "PROPERTIES KeysAfterDtls SctpAfterDtls OpenAfterSctp ConnectedAfterAll DtlsAfterStart\n"
+                    "CHECK_DEADLOCK FALSE\n")
+        res = vlib.tlc("Stack", os.path.basename(cfg), workers=2, timeout=300, tag=f"selfstack_{dev}")
+        os.remove(cfg)
+        hit = prop in " ".join(res["errors"])
+        print(f"selftest: Stack deviation {dev} violates {prop}: {hit}")
+        ok &= hit
+
+    class _Ck:      # collects the drift of one stack pass
+        def __init__(self, d):
+            self.dir, self.drift = d, []
+
+        def add_tlc(self, *_a):
+            pass
+    good = _Ck(ck.dir)
+    lc.stack_pass(good, vlib, runs, lambda r: r[0]["scenario"]["cfg"]["mode"], "self_good")
+    print("selftest: Stack ordering holds on the recorded run:", not good.drift)
+    ok &= not good.drift
+    orig = lc.flatten_stack
+
+    def moved(events, mode):
+        f2 = orig(events, mode)
+        i = next(i for i, r in enumerate(f2) if r["t"] == "dtls_keyed" and r["inst"] == "A")
+        j = next(i for i, r in enumerate(f2) if r["t"] == "sctp_act" and r["inst"] == "A")
+        f2.insert(i, f2.pop(j))
+        return f2
+    lc.flatten_stack = moved
+    bad = _Ck(ck.dir)
+    lc.stack_pass(bad, vlib, runs, lambda r: r[0]["scenario"]["cfg"]["mode"], "self_bad")
+    lc.flatten_stack = orig
+    hit = any("EXT.SctpAfterDtls" in json.dumps(d) for d in bad.drift)
+    print("selftest: SCTP activity before the DTLS key derivation is flagged EXT.SctpAfterDtls:", hit)
+    ok &= hit
     raise SystemExit(0 if ok else 2)
